@@ -20,6 +20,41 @@ class OptVal:
         return "Opt(%s, %s)" % (self.some, self.payload)
 
 
+class CmpVal:
+    """The result of a.partial_cmp(&b) / a.cmp(&b) in the comparisons-only domain (real values: never incomparable)."""
+    def __init__(self, a, b, partial):
+        self.a, self.b, self.partial = a, b, partial
+
+    def cond(self, which):
+        w = frozenset(which)
+        a, b = self.a, self.b
+        return {frozenset(["Less"]): sp.Lt(a, b), frozenset(["Greater"]): sp.Gt(a, b), frozenset(["Equal"]): sp.Eq(a, b),
+                frozenset(["Less", "Equal"]): sp.Le(a, b), frozenset(["Greater", "Equal"]): sp.Ge(a, b), frozenset(["Less", "Greater"]): sp.Ne(a, b)}[w]
+
+
+def ordering_set(pat):
+    """The orderings a pattern over Option<Ordering> / Ordering accepts: subset of {Less, Equal, Greater}; None for a pattern outside the model."""
+    k = pat.get("k")
+    d = (pat.get("def") or "").split("::")[-1]
+    if k == "Wild" or (k == "Bind" and "sub" not in pat):
+        return {"Less", "Equal", "Greater"}
+    if k == "POr":
+        out = set()
+        for q in pat["ps"]:
+            s_ = ordering_set(q)
+            if s_ is None:
+                return None
+            out |= s_
+        return out
+    if k == "PTupleStruct" and d == "Some" and len(pat["ps"]) == 1:
+        return ordering_set(pat["ps"][0])
+    if k == "PPath" and d in ("Less", "Equal", "Greater"):
+        return {d}
+    if k == "PPath" and d == "None":
+        return set()
+    return None
+
+
 class ResVal:
     """Result<T,E> with a known split: ok-condition, ok payload, err payload."""
     def __init__(self, okc, ok, err):
@@ -103,10 +138,15 @@ class PathInterp(sym.Interp):
             if isinstance(v, OptVal):
                 if name in ("copied", "cloned"):
                     return v
-                args = [self.ev(a) for a in n["args"]]
+                def arg_value(a):
+                    ap = peel(a)
+                    if ap.get("k") == "Path" and ap.get("dk", "").startswith(("Fn", "AssocFn", "Ctor")):
+                        return sym.FnVal(ap)
+                    return self.ev(a)
+                args = [arg_value(a) for a in n["args"]]
 
                 def app(f, x):
-                    if isinstance(f, sym.ClosureVal):
+                    if isinstance(f, (sym.ClosureVal, sym.FnVal)):
                         return self.apply_closure(f, [x], n)
                     raise sym.Unsupported(n, "Option::%s with a non-closure argument" % name)
                 if name == "unwrap_or":
@@ -131,6 +171,14 @@ class PathInterp(sym.Interp):
                         o._mut_place = v._mut_place
                     return o
                 return OptVal(sp.false, None)
+        if name in ("partial_cmp", "cmp", "total_cmp") and len(n["args"]) == 1 and ("cmp::PartialOrd" in (n.get("def") or "") or "cmp::Ord" in (n.get("def") or "") or name == "total_cmp"):
+            return CmpVal(self.num(self.ev(n["recv"]), n), self.num(self.ev(n["args"][0]), n), name == "partial_cmp")
+        if name in ("is_lt", "is_le", "is_gt", "is_ge", "is_eq", "is_ne") and not n["args"]:
+            v = self.ev(n["recv"])
+            if isinstance(v, sym.Variant) and v.name == "Some" and v.args and isinstance(v.args[0], CmpVal):
+                v = v.args[0]
+            if isinstance(v, CmpVal):
+                return v.cond({"is_lt": ["Less"], "is_le": ["Less", "Equal"], "is_gt": ["Greater"], "is_ge": ["Greater", "Equal"], "is_eq": ["Equal"], "is_ne": ["Less", "Greater"]}[name])
         if name in ("ok_or", "ok_or_else"):
             v = self.ev(n["recv"])
             if isinstance(v, OptVal):
@@ -191,6 +239,8 @@ class PathInterp(sym.Interp):
         # (not re-evaluating the operand: a second evaluation would repeat its user calls)
         if isinstance(v, sym.Variant) and v.name in ("Ok", "Some") and len(v.args) == 1:
             return v.args[0]
+        if isinstance(v, sym.Variant) and v.name in ("Err", "None"):
+            raise sym.Return(v)
         return v
 
     def ev_Let(self, n):
@@ -253,6 +303,21 @@ class PathInterp(sym.Interp):
                         continue
                 return self.ev(a["body"])
             raise sym.Unsupported(n, "match on Option without a matching arm")
+        if isinstance(v, CmpVal):
+            rest = {"Less", "Equal", "Greater"}
+            for a in n["arms"]:
+                S_ = ordering_set(a["pat"])
+                if S_ is None or "guard" in a:
+                    raise sym.Unsupported(n, "match arm on an Ordering outside the model")
+                S_ = S_ & rest
+                if not S_:
+                    continue
+                if S_ == rest or self.decide(v.cond(S_)):
+                    if a["pat"].get("k") == "Bind":
+                        self.bind(a["pat"], v, n)
+                    return self.ev(a["body"])
+                rest = rest - S_
+            raise sym.Unsupported(n, "match on an Ordering without a matching arm")
         raise sym.Unsupported(n, "match on %r" % (v,))
 
     def ev_If(self, n):
